@@ -1,6 +1,6 @@
 (* C08 — world borrows: shared xor exclusive, violations panic, drops release.
    Statements only; proofs in WorldProps.v. *)
-From Shred Require Import Base World WorldProps.
+From Shred Require Import Base World WorldProps Meta MetaIterInv.
 
 (* For EVERY history of operations (fetch forms, by-id forms, clones, drops, reads and writes
    through guards, inserts, removes, entry, get_mut, presence queries, in any order, on any
@@ -57,6 +57,13 @@ Theorem C08_drop_releases_exactly_one_borrow :
   guards w' = remove_guard g (guards w).
 Proof. exact drop_exact. Qed.
 Print Assumptions C08_drop_releases_exactly_one_borrow.
+
+(* meta-table operations are part of the histories: register, get, get_mut, iter, iter_mut (complete, or cut short by a
+   borrow panic or a rejected cast), holding and dropping guards — every such history keeps the borrow discipline *)
+Theorem C08_meta_table_histories_keep_the_borrow_discipline :
+  forall bad os s, inv (s_world s) -> inv (s_world (fst (mrun bad s os))).
+Proof. exact mrun_inv. Qed.
+Print Assumptions C08_meta_table_histories_keep_the_borrow_discipline.
 
 Example C08_example :
   let os := [OInsert 0 (0, 0)%N (1, 5)%N; OFetchOp FTryFetch 0 (0, 0)%N; OClone 0; OFetchOp FTryFetchMut 0 (0, 0)%N;
